@@ -322,7 +322,8 @@ def c08_pairs_replay(rec):
     return msgs
 
 
-C08_SOURCES = ["x = %s\n", "def f():\n    return %s\n", "def f(a=%s):\n    '''d'''\n    return a\n", "def f(x):\n    if x:\n        return %s\n"]
+C08_SOURCES = ["x = %s\n", "def f():\n    return %s\n", "def f(a=%s):\n    '''d'''\n    return a\n", "def f(x):\n    if x:\n        return %s\n",
+               "def outer():\n    def inner():\n        return %s\n    return lambda: inner\n"]
 C08_EXPRS = ["1", "1.0", "True", "0.0", "-0.0", "'a'", "b'a'", "(1, 2.0)", "1e999 - 1e999", "(1e999 - 1e999, 1)", "1j", "-0.0j", "(0.0, -0.0)", "x in {1, 2.0}", "..."]
 
 
@@ -464,6 +465,38 @@ def _c16_case(kind, prog, flags, tmpdir, raw=False):
     return msgs
 
 
+def _c16_module_dis(mod):
+    rc1, out1, err1 = _cli(["-m", mod, "--dis"])
+    rc2, out2, err2 = _cli(["-m", mod, "--dis-after"])
+    if rc1 or rc2:
+        return ["exit status %d/%d" % (rc1, rc2)]
+    a = [n for n in _dis_names(out1) if n != "EXTENDED_ARG"]
+    b = [n for n in _dis_names(out2) if n != "EXTENDED_ARG"]
+    if a != b or not a:
+        return ["--dis-after shows %d instructions, --dis shows %d; first difference at %s" % (len(b), len(a), next((i for i, (x, y) in enumerate(zip(a, b)) if x != y), min(len(a), len(b))))]
+    return []
+
+
+def _c16_module(mod, flags):
+    """what `-m mod` prints is the API's result for the code of the module that was named (not run, not replaced by another module)"""
+    import importlib.util
+    spec = importlib.util.find_spec(mod)
+    code = spec.loader.get_code(mod)
+    cd = CodeData.from_code(code)
+    if "--no-normalize" not in flags:
+        cd = cd.normalize()
+    want = repr(cd) + "\n"
+    if "--json" in flags:
+        want += json.dumps(cd.to_json_data(), indent=2, ensure_ascii=False) + "\n"
+    rc, out, err = _cli(["-m", mod] + flags)
+    if rc != 0:
+        return ["exit status %d for -m %s: %s" % (rc, mod, err.strip()[-200:])]
+    if out != want:
+        i = next((k for k, (x, y) in enumerate(zip(out, want)) if x != y), min(len(out), len(want)))
+        return ["-m %s prints something else than the API's result for the code of %s (%s): first difference at char %d: %r vs %r" % (mod, mod, code.co_filename, i, out[i:i + 80], want[i:i + 80])]
+    return []
+
+
 @part("C16", "cli_subprocess")
 def c16_cli(tier, seed):
     import tempfile
@@ -516,16 +549,19 @@ def c16_cli(tier, seed):
         # -m module, and --dis vs --dis-after show the same instructions
         for mod in ["json.tool", "colorsys"] + (["textwrap", "bisect"] if tier == "thorough" else []):
             evals += 1
-            rc1, out1, err1 = _cli(["-m", mod, "--dis"])
-            rc2, out2, err2 = _cli(["-m", mod, "--dis-after"])
-            if rc1 or rc2:
-                fails.append(fail("cli_contract", "-m %s" % mod, ["exit status %d/%d" % (rc1, rc2)], {"mod": mod}))
-                continue
-            a = [n for n in _dis_names(out1) if n != "EXTENDED_ARG"]
-            b = [n for n in _dis_names(out2) if n != "EXTENDED_ARG"]
-            if a != b or not a:
-                fails.append(fail("cli_contract", "-m %s" % mod, ["--dis-after shows %d instructions, --dis shows %d; first difference at %s" % (
-                    len(b), len(a), next((i for i, (x, y) in enumerate(zip(a, b)) if x != y), min(len(a), len(b))))], {"mod": mod}))
+            msgs = _c16_module_dis(mod)
+            if msgs:
+                fails.append(fail("cli_contract", "-m %s" % mod, msgs, {"mod": mod}))
+        # -m names the module whose code is shown: plain modules, packages, packages that also have a __main__ submodule, submodules
+        for mod in ["colorsys", "json", "unittest", "ensurepip", "json.tool"] + (["venv", "unittest.__main__", "code_data", "email.mime"] if tier == "thorough" else []):
+            for flags in ([], ["--json"]) + ((["--no-normalize"],) if tier == "thorough" else ()):
+                evals += 1
+                try:
+                    msgs = _c16_module(mod, flags)
+                except Exception as e:
+                    msgs = ["case raised %s: %s" % (type(e).__name__, e)]
+                if msgs:
+                    fails.append(fail("cli_contract", "-m %s %s" % (mod, " ".join(flags)), msgs, {"mod": mod, "flags": flags, "api": True}))
     finally:
         import shutil
         shutil.rmtree(tmpdir, ignore_errors=True)
@@ -544,7 +580,7 @@ def c16_replay(rec):
             return ["exit status %d, usage error expected" % rc]
         return []
     if "mod" in r:
-        return []
+        return _c16_module(r["mod"], r.get("flags", [])) if r.get("api") else _c16_module_dis(r["mod"])
     d = tempfile.mkdtemp(prefix="pcv-c16r-")
     try:
         return _c16_case(r["kind"], r["prog"], r["flags"], d, raw=r.get("raw", False))
@@ -581,6 +617,13 @@ def c08_corpus(code, dec):
     n = cd.normalize()
     if n == cd and hash(n) != h1:
         msgs.append("normalized value equals the decoded one but hashes differently")
+    if n == cd:
+        try:
+            dd = oracle.code_diff(n.to_code(), code)
+        except Exception as e:
+            dd = ["to_code of the normalized value raised %s: %s" % (type(e).__name__, e)]
+        if dd:
+            msgs.append("normalized value equals the decoded one but encodes to different code: %s" % dd[0])
     return msgs
 
 
